@@ -93,6 +93,14 @@ class LimCtx:
             atol = kwargs.get("atol", args[3] if len(args) > 3 else Fraction("1e-8"))
             return A.cmp("<=", A.abs(x - y), A.lift(atol) + A.lift(rtol) * A.abs(y))
         it.np_hooks["isclose"] = isclose
+
+        def rounding_call(args, kwargs):
+            e = AnalysisError("rounding to a fixed number of decimals in a limiter")
+            e.violation = ("LIM-HOMOG", self.f.qualname, "the limiter rounds its result to a fixed number of DECIMALS (np.round / np.around / round): an absolute grid (1e-12 ...), not a relative one -- for same-sign slopes of small magnitude phi(t*a, t*b) != t*phi(a, b) and phi(a, a) deviates from a by up to half a grid step, far more than the statement's 1e-20/a^2",
+                           "abs-rounding", {"C12", "C11", "C04"})
+            raise e
+        for nm in ("round", "around", "round_", "builtin:round"):
+            it.np_hooks[nm] = rounding_call
         lc = self
 
         class _Rank:
